@@ -96,7 +96,7 @@ CHECKS = {
     "C14": (
         "exploration",
         "lattice of parallelisation settings executed in separate interpreter processes plus every completion order of a controllable pool (deviation-bounded)",
-        "Both samplers x two seeds x parallelisation settings (n_pool 1..4, user-supplied fork pool, chunk sizes 1 / 7 / larger than any batch, parallel prior) run in separate interpreter processes under two PYTHONHASHSEED values and twice within one process; an in-process controllable pool runs each map call under every completion order (deviation 1: one call deviates; deviation 2 in thorough: two calls). Byte digests of nested samples, logZ, posterior weights and the evaluation counter must coincide within a seed class.",
+        "Both samplers x two seeds x parallelisation settings (n_pool 1..4, user-supplied fork pool, chunk sizes 1 / 7 / larger than any batch, parallel prior) run in separate interpreter processes under two PYTHONHASHSEED values and twice within one process; an in-process controllable pool runs each map call under every completion order (deviation 1: one call deviates; deviation 2 in thorough: two calls). Byte digests of nested samples, logZ, posterior weights and the evaluation counter must coincide within a class (everything but the parallelisation settings). A partial reparameterisation of an asymmetric 3-parameter model runs under four hash seeds. Virtual-clock schedules: the time-triggered-checkpoint configuration of each sampler under clock speeds from frozen to 1e6 s per evaluated point - the wall clock may only decide when checkpoints are written, never the result.",
         "Exactly rounded (+,* only) likelihood. Pools of undiscoverable size (documented fallback with a different random stream) are outside the lattice.",
         "4/C14",
     ),
